@@ -1,6 +1,7 @@
 package sim
 
 import (
+	"time"
 	"bytes"
 	"fmt"
 	"sort"
@@ -38,6 +39,8 @@ type regionScanner struct {
 	rangeDone bool
 	heartbeat int
 	conn      int
+	// releasedAt: when the scanner was closed or exhausted (a renewal racing with that is benign)
+	releasedAt time.Time
 }
 
 // ScanServer serves Scan requests on user tables from a fixed row set, cutting
@@ -145,12 +148,15 @@ func (s *ScanServer) Handle(c *Cluster, sc *Conn, reg *Region, ctx *ScanCtx) *Re
 				s.CloseReqs++
 				return &Reply{Msg: &pb.ScanResponse{}}
 			}
-			s.problem("request on scanner %d which is already released", rs.id)
+			if !(req.GetRenew() && !time.Now().After(rs.releasedAt)) {
+				s.problem("request on scanner %d which is already released", rs.id)
+			}
 			return &Reply{Exc: &Exc{Class: UnknownScanner, Stack: UnknownScanner}}
 		}
 		if isClose {
 			s.CloseReqs++
 			rs.closed = true
+			rs.releasedAt = time.Now()
 			return &Reply{Msg: &pb.ScanResponse{ScannerId: proto.Uint64(rs.id), MoreResults: proto.Bool(false)}}
 		}
 		if req.GetRenew() {
@@ -202,6 +208,7 @@ func (s *ScanServer) Handle(c *Cluster, sc *Conn, reg *Region, ctx *ScanCtx) *Re
 	rep := s.respond(c, rs, req)
 	if req.GetCloseScanner() {
 		rs.closed = true
+		rs.releasedAt = time.Now()
 	}
 	return rep
 }
@@ -323,6 +330,7 @@ func (s *ScanServer) respond(c *Cluster, rs *regionScanner, req *pb.ScanRequest)
 	resp.MoreResultsInRegion = proto.Bool(inRegion)
 	if !inRegion {
 		rs.exhausted = true
+		rs.releasedAt = time.Now()
 	}
 	return &Reply{Msg: resp, CellBlock: block}
 }
